@@ -161,9 +161,22 @@ func warmPaths(t *testing.T, cfg *hConfig, depth int, deadline time.Time, run *r
 func TestC13(t *testing.T) {
 	run := rep.Start("C13", "model_checking")
 	defer run.Finish(t)
-	deadline := rep.Deadline(4*time.Minute, 60*time.Minute)
 	// (1) reader ‖ writer: all interleavings
 	runConc(t, run, c13RaceScenarios(), 3*time.Minute, 40*time.Minute)
+	// (3) the same with long-lived (warm) writer and reader handles
+	// (run before the long history search so that a tight wall-clock budget cannot starve it)
+	warmDeadline := rep.Deadline(3*time.Minute, 30*time.Minute)
+	wd := 2
+	if rep.Thorough() {
+		wd = 3
+	}
+	paths, queries, complete := 0, 0, true
+	for _, cfg := range c13Configs() {
+		p, q, c := warmPaths(t, cfg, wd, warmDeadline, run)
+		paths += p
+		queries += q
+		complete = complete && c
+	}
 	// (2) immutability over histories, cold handles: the history search re-queries
 	// every commit in every state
 	sub := rep.Start("C13", "model_checking")
@@ -171,20 +184,8 @@ func TestC13(t *testing.T) {
 	if rep.Thorough() {
 		depth = 4
 	}
-	runHistoryShards(t, sub, "c13", len(c13Configs()), []int{0, 1}, depth, deadline)
+	runHistoryShards(t, sub, "c13", len(c13Configs()), []int{0, 1}, depth, rep.Deadline(4*time.Minute, 60*time.Minute))
 	run.Merge(sub, "history_")
-	// (3) the same with long-lived (warm) writer and reader handles
-	wd := 2
-	if rep.Thorough() {
-		wd = 3
-	}
-	paths, queries, complete := 0, 0, true
-	for _, cfg := range c13Configs() {
-		p, q, c := warmPaths(t, cfg, wd, deadline, run)
-		paths += p
-		queries += q
-		complete = complete && c
-	}
 	run.Set("warm_handle_histories", paths)
 	run.Set("warm_handle_queries", queries)
 	run.Set("warm_handle_depth", wd)
